@@ -1,4 +1,432 @@
-#[allow(dead_code, unused_imports, unused_variables, unused_mut)]
+// Interface-level wake-up schedule harnesses: C13 (Interface::poll_at vs. Interface::poll).
+// Spliced into src/iface/interface/mod.rs: `Interface { inner, fragments, fragmenter }`, private
+// fields of `InterfaceInner`, `socket_egress`, `ndisc_rs_egress`, `multicast_egress` reachable.
+//
+// The SLAAC state of the interface is produced through `Slaac`'s own API, in the order the interface
+// uses it (rs_sent after rs_required, process_advertisement, sync), at symbolic instants - the
+// fields of `Slaac` are private to iface::slaac (see iface_slaac.rs for its invariant).
+//
+// Modelling notes
+//  * SLAAC is only enabled on Medium::Ethernet here: on Medium::Ip `ndisc_rs_egress` evaluates
+//    `self.hardware_addr().into()`, i.e. `HardwareAddress::Ip.as_bytes()`, which is `unreachable!()`
+//    (reported separately; it is a crash, not a scheduling defect).
+//  * Joining a multicast group (done by update_ip_addrs for the solicited-node group on Ethernet) is
+//    announced by the next poll but not scheduled through poll_at; C13 excludes the MLD/IGMP
+//    machinery, so the harnesses flush the pending reports (`multicast_egress`) before they start.
+#[allow(dead_code, unused_imports, unused_variables, unused_mut, unused_macros)]
 mod v_iface_pollat {
     use super::*;
+    use crate::iface::{SocketSet, SocketStorage};
+    use crate::socket::tcp as stcp;
+    use crate::socket::udp as sudp;
+    use crate::verif_common::*;
+    use crate::verif_dev::{CapDev, NullDev};
+
+    // instants are symbolic microsecond counts (the resolution of `Instant`)
+    const T_MAX: i64 = 1i64 << 50;
+    /// RTR_SOLICITATION_INTERVAL in microseconds
+    const RSI: i64 = 4_000_000;
+    const FRAME: usize = 128;
+    const MAC: [u8; 6] = [0x02, 0, 0, 0, 0, 0x01];
+
+    fn us(t: i64) -> Instant {
+        Instant::from_micros(t)
+    }
+
+    fn any_us(lo: i64, hi: i64) -> i64 {
+        let t: i64 = kani::any();
+        kani::assume(t >= lo && t <= hi);
+        t
+    }
+
+    /// minimum of two optional deadlines, None = no deadline
+    fn opt_min(a: Option<Instant>, b: Option<Instant>) -> Option<Instant> {
+        match (a, b) {
+            (None, x) => x,
+            (x, None) => x,
+            (Some(x), Some(y)) => Some(if x <= y { x } else { y }),
+        }
+    }
+
+    /// the instant at which an event loop sleeping until `d` wakes up when it is `now`
+    fn wake(d: Option<Instant>, now: Instant) -> Option<Instant> {
+        d.map(|x| if x <= now { now } else { x })
+    }
+
+    /// a socket's own deadline as an optional instant (PollAt::Now = due at `now`)
+    fn finite(p: PollAt, now: Instant) -> Option<Instant> {
+        match p {
+            PollAt::Ingress => None,
+            PollAt::Now => Some(now),
+            PollAt::Time(t) => Some(t),
+        }
+    }
+
+    /// reference: minimum over the finite deadlines of all sockets (their neighbor state is Active in
+    /// these harnesses, so `Meta::poll_at` passes the socket's value on - see socket_meta.rs)
+    fn sockets_deadline(iface: &mut Interface, sockets: &SocketSet<'_>, now: Instant) -> Option<Instant> {
+        let mut best: Option<Instant> = None;
+        for item in sockets.items() {
+            let p = item.socket.poll_at(&mut iface.inner);
+            crate::vdump!("  socket {}: poll_at = {:?}", item.meta.handle, p);
+            best = opt_min(best, finite(p, now));
+        }
+        best
+    }
+
+    macro_rules! udp_socket {
+        ($s:ident, $port:expr) => {
+            let mut rxm = [sudp::PacketMetadata::EMPTY; 1];
+            let mut rxp = [0u8; 4];
+            let mut txm = [sudp::PacketMetadata::EMPTY; 1];
+            let mut txp = [0u8; 4];
+            let mut $s = sudp::Socket::new(
+                sudp::PacketBuffer::new(&mut rxm[..], &mut rxp[..]),
+                sudp::PacketBuffer::new(&mut txm[..], &mut txp[..]),
+            );
+            $s.bind($port).unwrap();
+        };
+    }
+
+    // =================================================================================== IPv6 + SLAAC (KI6)
+    #[cfg(feature = "proto-ipv6-slaac")]
+    mod v6 {
+        use super::*;
+
+        pub(super) const LL: Ipv6Address = Ipv6Address::new(0xfe80, 0, 0, 0, 0, 0, 0, 1);
+        pub(super) const ROUTER: Ipv6Address = Ipv6Address::new(0xfe80, 0, 0, 0, 0, 0, 0, 0xa);
+        pub(super) const ALL_NODES: Ipv6Address = Ipv6Address::new(0xff02, 0, 0, 0, 0, 0, 0, 1);
+        pub(super) const PEER: Ipv6Address = Ipv6Address::new(0xfe80, 0, 0, 0, 0, 0, 0, 2);
+
+        pub(super) fn config(eth: bool, slaac: bool) -> Config {
+            let mut c = Config::new(if eth {
+                HardwareAddress::Ethernet(EthernetAddress(MAC))
+            } else {
+                HardwareAddress::Ip
+            });
+            c.slaac = slaac;
+            c
+        }
+
+        pub(super) fn medium(eth: bool) -> Medium {
+            if eth { Medium::Ethernet } else { Medium::Ip }
+        }
+
+        /// Drive the interface's `Slaac` to a symbolic reachable state, all events at instants <= `now`.
+        /// Returns a tag for covers: 0 Start, 1 Discovering (1..=2 solicitations sent), 2 Discovering
+        /// with the budget spent, 3 Maintaining (0 or 1 router stored).
+        pub(super) fn any_slaac_history(iface: &mut Interface, now: i64) -> u8 {
+            let k: u8 = kani::any();
+            kani::assume(k <= 3);
+            if k == 0 {
+                return 0;
+            }
+            let s = &mut iface.inner.slaac;
+            let t1 = any_us(0, now);
+            // first solicitation (Start: due at any instant)
+            kani::assume(s.rs_required(us(t1)));
+            s.rs_sent(us(t1));
+            if k == 1 {
+                if kani::any() {
+                    let t2 = any_us(t1 + RSI, now);
+                    kani::assume(s.rs_required(us(t2)));
+                    s.rs_sent(us(t2));
+                }
+                return 1;
+            }
+            if k == 2 {
+                let t2 = any_us(t1 + RSI, now);
+                kani::assume(s.rs_required(us(t2)));
+                s.rs_sent(us(t2));
+                let t3 = any_us(t2 + RSI, now);
+                kani::assume(s.rs_required(us(t3)));
+                s.rs_sent(us(t3));
+                return 2;
+            }
+            // a router answers at t_ra with a symbolic lifetime (0 = "not a default router")
+            let t_ra = any_us(t1, now);
+            let life = any_us(0, 65_535_000_000) as u64;
+            s.process_advertisement(&ROUTER, Duration::from_micros(life), None, us(t_ra));
+            // the interface copies the route at its next maintenance
+            if kani::any() {
+                let t_sync = any_us(t_ra, now);
+                if iface.inner.slaac.sync_required(us(t_sync)) {
+                    iface.sync_slaac_state(us(t_sync));
+                }
+            }
+            3
+        }
+
+        // ------------------------------------------------------------------ combination of deadlines
+        pub(super) fn combination_body() {
+            let eth: bool = kani::any();
+            let slaac_on: bool = kani::any();
+            let mut dev = NullDev { medium: medium(eth), mtu: 1500, checksum: ChecksumCapabilities::ignored() };
+            let now = any_us(0, T_MAX);
+            let nowi = us(now);
+            let mut iface = Interface::new(config(eth, slaac_on), &mut dev, us(0));
+            iface.update_ip_addrs(|a| {
+                a.push(IpCidr::Ipv6(Ipv6Cidr::new(LL, 64))).unwrap();
+            });
+            // advertisements and solicitations only touch `slaac` when it is enabled
+            let tag = if slaac_on { any_slaac_history(&mut iface, now) } else { 0 };
+
+            // 0..=2 UDP sockets (queue empty: Ingress, non-empty: Now), optionally a TCP socket whose
+            // SYN went out at a symbolic instant (retransmission timer: Time(t))
+            let n_udp: u8 = kani::any();
+            kani::assume(n_udp <= 2);
+            let q0: bool = kani::any();
+            let q1: bool = kani::any();
+            udp_socket!(u0, 1000);
+            udp_socket!(u1, 1001);
+            let mut trx = [0u8; 4];
+            let mut ttx = [0u8; 4];
+            let mut storage = [SocketStorage::EMPTY, SocketStorage::EMPTY, SocketStorage::EMPTY];
+            let mut sockets = SocketSet::new(&mut storage[..]);
+            if q0 {
+                u0.send_slice(&[1, 2], IpEndpoint::new(IpAddress::Ipv6(PEER), 7)).unwrap();
+            }
+            if q1 {
+                u1.send_slice(&[3], IpEndpoint::new(IpAddress::Ipv6(PEER), 7)).unwrap();
+            }
+            if n_udp >= 1 {
+                sockets.add(u0);
+            }
+            if n_udp >= 2 {
+                sockets.add(u1);
+            }
+            let with_tcp: bool = kani::any();
+            let mut t0 = stcp::Socket::new(stcp::SocketBuffer::new(&mut trx[..]), stcp::SocketBuffer::new(&mut ttx[..]));
+            if with_tcp {
+                let t_syn = any_us(0, now);
+                iface.inner.now = us(t_syn);
+                t0.connect(&mut iface.inner, (IpAddress::Ipv6(PEER), 80u16), 4000u16).unwrap();
+                let _ = t0.dispatch(&mut iface.inner, |_cx, _pkt| -> core::result::Result<(), ()> { Ok(()) });
+                sockets.add(t0);
+            }
+
+            crate::vdump!("now={} medium={:?} slaac_enabled={} slaac={:?}", nowi, medium(eth), slaac_on, iface.inner.slaac);
+            let d_sock = sockets_deadline(&mut iface, &sockets, nowi);
+            let d_slaac = if slaac_on { iface.inner.slaac.poll_at(nowi) } else { None };
+            let want = opt_min(d_sock, d_slaac);
+            let got = iface.poll_at(nowi, &sockets);
+            crate::vdump!("sockets: {:?}  slaac: {:?}  expected min: {:?}  Interface::poll_at: {:?}", d_sock, d_slaac, want, got);
+
+            kani::cover!(slaac_on && d_sock.is_none() && d_slaac.is_some(), "only SLAAC has a deadline");
+            kani::cover!(slaac_on && d_slaac.is_none() && d_sock.is_some(), "SLAAC idle, a socket has a deadline");
+            kani::cover!(slaac_on && with_tcp && n_udp == 0 && d_slaac.is_some() && d_sock.unwrap() > nowi && d_slaac.unwrap() > d_sock.unwrap(), "timed socket deadline before timed SLAAC deadline");
+            kani::cover!(!slaac_on && n_udp == 2 && q1 && !q0 && !with_tcp, "second of two UDP sockets due");
+            kani::cover!(tag == 3 && eth && d_slaac.is_some(), "router lifetime running");
+            kani::cover!(want.is_none() && n_udp == 2 && with_tcp == false, "nothing scheduled");
+
+            if want.is_some() {
+                assert!(got.is_some(), "prop:c13_iface_poll_at_keeps_finite_deadline");
+            } else {
+                assert!(got.is_none(), "prop:c13_iface_poll_at_no_spurious_deadline");
+            }
+            if want.is_some() && got.is_some() {
+                assert!(wake(got, nowi) == wake(want, nowi), "prop:c13_iface_poll_at_is_min_of_finite_deadlines");
+            }
+        }
+
+        // ------------------------------------------------------------------ poll vs poll_at on a real interface
+        pub(super) struct Pre {
+            pub(super) tag: u8,
+            pub(super) slaac_on: bool,
+            pub(super) queued: bool,
+        }
+
+        macro_rules! poll_env {
+            ($dev:ident, $iface:ident, $sockets:ident, $pre:ident, $now:ident) => {
+                let slaac_on: bool = kani::any();
+                // see the modelling note at the top: SLAAC only on Ethernet
+                let eth = slaac_on;
+                let mut $dev = CapDev::<FRAME>::new(medium(eth), 1500, ChecksumCapabilities::ignored());
+                let $now = any_us(0, T_MAX);
+                let mut $iface = Interface::new(config(eth, slaac_on), &mut $dev, us(0));
+                $iface.update_ip_addrs(|a| {
+                    a.push(IpCidr::Ipv6(Ipv6Cidr::new(LL, 64))).unwrap();
+                });
+                // announce the solicited-node group now (outside C13), then start counting frames
+                $iface.multicast_egress(&mut $dev);
+                $dev.tx.frames = 0;
+                let tag = if slaac_on { any_slaac_history(&mut $iface, $now) } else { 0 };
+                udp_socket!(u0, 1000);
+                let mut storage = [SocketStorage::EMPTY];
+                let mut $sockets = SocketSet::new(&mut storage[..]);
+                let queued: bool = kani::any();
+                if queued {
+                    // multicast destination: no neighbor discovery on Ethernet
+                    u0.send_slice(&[1, 2], IpEndpoint::new(IpAddress::Ipv6(ALL_NODES), 7)).unwrap();
+                }
+                $sockets.add(u0);
+                let $pre = Pre { tag, slaac_on, queued };
+                assert!($iface.fragmenter_is_idle(), "inv:fragmenter_empty");
+            };
+        }
+
+        pub(super) fn nonspin_body() {
+            poll_env!(dev, iface, sockets, pre, now);
+            let nowi = us(now);
+            crate::vdump!("PRE now={} slaac_enabled={} slaac={:?} udp_queued={}", nowi, pre.slaac_on, iface.inner.slaac, pre.queued);
+            let res = iface.poll(nowi, &mut dev, &mut sockets);
+            let frames = dev.tx.frames;
+            let d = iface.poll_at(nowi, &sockets);
+            crate::vdump!("POST frames={} poll={:?} slaac={:?} poll_at={:?} poll_delay={:?}", frames, res, iface.inner.slaac, d, iface.poll_delay(nowi, &sockets));
+            kani::cover!(frames == 0 && pre.tag == 1, "idle poll while waiting for the solicitation interval");
+            kani::cover!(frames == 0 && pre.tag == 2, "idle poll after the last solicitation");
+            kani::cover!(frames == 2 && pre.queued && pre.slaac_on, "router solicitation and datagram in one poll");
+            kani::cover!(frames == 0 && pre.tag == 3 && d.is_some(), "idle poll with a router lifetime running");
+            kani::cover!(frames == 1 && !pre.slaac_on, "datagram sent on Medium::Ip");
+            if frames == 0 {
+                // nothing received (rx_pending = false), nothing transmitted: the deadline lies ahead or is absent
+                assert!(d.is_none() || d.unwrap() > nowi, "prop:c13_iface_idle_poll_leaves_future_deadline");
+                assert!(res == PollResult::None, "prop:c13_iface_idle_poll_reports_no_change");
+            }
+            if pre.queued {
+                assert!(frames >= 1, "prop:c13_iface_due_socket_is_served");
+            }
+        }
+
+        pub(super) fn early_body() {
+            poll_env!(dev, iface, sockets, pre, now);
+            let nowi = us(now);
+            crate::vdump!("PRE now={} slaac_enabled={} slaac={:?} udp_queued={}", nowi, pre.slaac_on, iface.inner.slaac, pre.queued);
+            let d = iface.poll_at(nowi, &sockets);
+            // any probe instant from `now` up to (excluding) the advertised deadline
+            let t = any_us(now, T_MAX + RSI);
+            let early = match d {
+                None => true,
+                Some(x) => us(t) < x,
+            };
+            kani::assume(early);
+            crate::vdump!("poll_at({}) = {:?}; polling at {}", nowi, d, us(t));
+            let _ = iface.poll(us(t), &mut dev, &mut sockets);
+            crate::vdump!("POST frames={} slaac={:?}", dev.tx.frames, iface.inner.slaac);
+            kani::cover!(pre.tag == 1 && t > now, "probe inside the solicitation interval");
+            kani::cover!(d.is_none() && !pre.slaac_on, "no deadline at all");
+            kani::cover!(pre.tag == 3 && d.is_some() && t > now, "probe before a router lifetime ends");
+            assert!(dev.tx.frames == 0, "prop:c13_iface_nothing_sent_before_poll_at");
+        }
+    }
+
+    impl Interface {
+        /// nothing left over from an earlier oversized datagram
+        fn fragmenter_is_idle(&self) -> bool {
+            #[cfg(feature = "_proto-fragmentation")]
+            {
+                self.fragmenter.is_empty()
+            }
+            #[cfg(not(feature = "_proto-fragmentation"))]
+            {
+                true
+            }
+        }
+    }
+
+    // @harness props=C13 cfg=KI6 tier=q to=600 mem=8 unwind=18 opts=nomem covers=6 funcs=Interface::poll_at;Slaac::poll_at;Meta::poll_at;udp::Socket::poll_at;tcp::Socket::poll_at bounds=Medium::Ip_or_Ethernet;_Config.slaac_on/off;_SLAAC_state_from_4_symbolic_histories_(Start,_1..=3_solicitations,_router_answer_with_any_lifetime_up_to_65535_s,_synced_or_not)_at_symbolic_instants;_0..=2_UDP_sockets_(queue_empty/non-empty)_and_0..=1_TCP_socket_in_SYN-SENT_with_its_retransmission_timer_at_a_symbolic_instant;_neighbor_state_Active;_now_<2^50_us
+    #[kani::proof]
+    pub(crate) fn poll_at_combination() {
+        #[cfg(feature = "proto-ipv6-slaac")]
+        v6::combination_body();
+    }
+
+    // @harness props=C13 cfg=KI6 tier=q to=900 mem=8 unwind=18 opts=nomem covers=5 funcs=Interface::poll;Interface::poll_at;Interface::poll_egress;Interface::poll_maintenance;Interface::ndisc_rs_egress;Interface::socket_egress;Interface::sync_slaac_state bounds=Medium::Ip_without_SLAAC_or_Ethernet_with_SLAAC;_device_accepts_every_frame,_no_frame_pending;_SLAAC_state_from_4_symbolic_histories;_one_UDP_socket_with_0..=1_queued_2-byte_datagram_to_ff02::1;_fragmenter_empty;_multicast_joins_flushed;_now_<2^50_us
+    #[kani::proof]
+    pub(crate) fn poll_nonspin_iface() {
+        #[cfg(feature = "proto-ipv6-slaac")]
+        v6::nonspin_body();
+    }
+
+    // @harness props=C13 cfg=KI6 tier=q to=900 mem=8 unwind=18 opts=nomem covers=3 funcs=Interface::poll;Interface::poll_at;Interface::poll_egress;Interface::ndisc_rs_egress;Interface::socket_egress bounds=same_interface_as_poll_nonspin_iface;_deadline_taken_at_now,_poll_at_any_probe_instant_in_[now,deadline)
+    #[kani::proof]
+    pub(crate) fn poll_early_iface() {
+        #[cfg(feature = "proto-ipv6-slaac")]
+        v6::early_body();
+    }
+
+    // =================================================================================== IPv4 fragmentation (KI4)
+    #[cfg(feature = "proto-ipv4-fragmentation")]
+    mod v4 {
+        use super::*;
+
+        const LOCAL: Ipv4Address = Ipv4Address::new(192, 168, 1, 1);
+        const PEER: Ipv4Address = Ipv4Address::new(192, 168, 1, 2);
+
+        pub(super) fn frag_body() {
+            let eth: bool = kani::any();
+            let mut dev = CapDev::<FRAME>::new(if eth { Medium::Ethernet } else { Medium::Ip }, 1500, ChecksumCapabilities::ignored());
+            let now = any_us(0, T_MAX);
+            let nowi = us(now);
+            let hw = if eth { HardwareAddress::Ethernet(EthernetAddress(MAC)) } else { HardwareAddress::Ip };
+            let mut iface = Interface::new(Config::new(hw), &mut dev, us(0));
+            iface.update_ip_addrs(|a| {
+                a.push(IpCidr::new(IpAddress::Ipv4(LOCAL), 24)).unwrap();
+            });
+            udp_socket!(u0, 1000);
+            let mut storage = [SocketStorage::EMPTY];
+            let mut sockets = SocketSet::new(&mut storage[..]);
+            let queued: bool = kani::any();
+            if queued {
+                u0.send_slice(&[1, 2], IpEndpoint::new(IpAddress::Ipv4(PEER), 7)).unwrap();
+            }
+            if kani::any() {
+                sockets.add(u0);
+            }
+            let d_sock = sockets_deadline(&mut iface, &sockets, nowi);
+
+            // an oversized datagram is being sent: `packet_len` bytes stored, `sent_bytes` of them transmitted
+            let cap = iface.fragmenter.buffer.len();
+            let packet_len = any_le(cap);
+            let sent = any_le(cap);
+            kani::assume(packet_len >= 1 && sent <= packet_len);
+            iface.fragmenter.packet_len = packet_len;
+            iface.fragmenter.sent_bytes = sent;
+            crate::vdump!("now={} fragmenter packet_len={} sent_bytes={} sockets={:?}", nowi, packet_len, sent, d_sock);
+
+            let d = iface.poll_at(nowi, &sockets);
+            if sent < packet_len {
+                // unsent fragment bytes: poll again right away, whatever the sockets say
+                assert!(d.is_some() && d.unwrap() <= nowi, "prop:c13_pending_fragments_poll_now");
+            } else {
+                // everything went out; the buffer is released by the next egress, which transmits nothing
+                // (one extra wake-up, then the sockets' schedule applies again)
+                iface.inner.now = nowi;
+                iface.ipv4_egress(&mut dev);
+                assert!(dev.tx.frames == 0, "prop:c13_finished_fragmenter_sends_nothing");
+                assert!(iface.fragmenter.is_empty(), "prop:c13_finished_fragmenter_released");
+                let d2 = iface.poll_at(nowi, &sockets);
+                assert!(wake(d2, nowi) == wake(d_sock, nowi), "prop:c13_iface_poll_at_is_min_of_finite_deadlines");
+            }
+            kani::cover!(sent < packet_len && d_sock.is_none() && sent > 0, "fragments pending, sockets idle");
+            kani::cover!(sent == packet_len && d_sock.is_some(), "fragmenter finished, socket due");
+            kani::cover!(sent == packet_len && d_sock.is_none() && eth, "fragmenter finished, nothing else to do");
+        }
+    }
+
+    // @harness props=C13 cfg=KI4 tier=q to=600 mem=8 unwind=18 opts=nomem covers=3 funcs=Interface::poll_at;Interface::ipv4_egress;Fragmenter::is_empty;Fragmenter::finished;Fragmenter::reset bounds=Medium::Ip_or_Ethernet;_fragmenter_with_any_packet_len_1..=buffer_size_(256)_and_any_sent_bytes<=packet_len;_0..=1_UDP_socket_with_0..=1_queued_datagram;_now_<2^50_us
+    #[kani::proof]
+    pub(crate) fn frag_pending_polls_now() {
+        #[cfg(feature = "proto-ipv4-fragmentation")]
+        v4::frag_body();
+    }
+
+    // @harness props=C13 kind=mustfail cfg=KI6 tier=q to=600 mem=8 unwind=18 opts=nomem
+    #[kani::proof]
+    pub(crate) fn pollat_must_fail() {
+        let mut dev = NullDev { medium: Medium::Ip, mtu: 1500, checksum: ChecksumCapabilities::ignored() };
+        let now = any_us(0, T_MAX);
+        let mut iface = Interface::new(Config::new(HardwareAddress::Ip), &mut dev, us(0));
+        udp_socket!(u0, 1000);
+        let mut storage = [SocketStorage::EMPTY];
+        let mut sockets = SocketSet::new(&mut storage[..]);
+        if kani::any() {
+            #[cfg(feature = "proto-ipv6")]
+            u0.send_slice(&[1, 2], IpEndpoint::new(IpAddress::Ipv6(Ipv6Address::new(0xfe80, 0, 0, 0, 0, 0, 0, 2)), 7)).unwrap();
+            #[cfg(not(feature = "proto-ipv6"))]
+            u0.send_slice(&[1, 2], IpEndpoint::new(IpAddress::Ipv4(Ipv4Address::new(10, 0, 0, 2)), 7)).unwrap();
+        }
+        sockets.add(u0);
+        assert!(iface.poll_at(us(now), &sockets).is_none(), "prop:deliberately_false_interface_never_has_a_deadline");
+    }
 }
